@@ -61,11 +61,15 @@ var bcFilters = []bcFilter{
 
 var deBruijnCache = map[int]string{}
 
-func deBruijn(n int) string {
+// deBruijn returns poly's sequence of order n (judged completely by c17Sequence; here it is the text the
+// barcodes are cut from). The call is journalled like every other call into poly.
+func deBruijn(w *mon.W, n int) string {
 	if s, ok := deBruijnCache[n]; ok {
 		return s
 	}
+	w.Begin(fmt.Sprintf("debruijn-%d", n), fmt.Sprintf("NucleobaseDeBruijnSequence(%d) as the text barcodes are cut from", n))
 	s := primers.NucleobaseDeBruijnSequence(n)
+	w.End()
 	deBruijnCache[n] = s
 	return s
 }
@@ -149,7 +153,7 @@ func c17BarcodesWith(w *mon.W, id string, L, n int, passBans, bans []string, fns
 		w.Violation(id, fmt.Sprintf("CreateBarcodesWithBannedSequences(%d,%d,%v,%v) %s", L, n, bans, fnames, p), rep)
 		return
 	}
-	db := deBruijn(n)
+	db := deBruijn(w, n)
 	words := map[string]int{}
 	for bi, b := range got {
 		w.Add("barcodes_checked", 1)
@@ -196,7 +200,7 @@ func c17BarcodesWith(w *mon.W, id string, L, n int, passBans, bans []string, fns
 
 func runC17(w *mon.W) {
 	idx := 0
-	maxOrder := w.Pick(9, 11)
+	maxOrder := w.Pick(11, 11)
 	for n := 1; n <= maxOrder; n++ {
 		id := fmt.Sprintf("seq-order-%d", n)
 		idx++
@@ -226,7 +230,7 @@ func runC17(w *mon.W) {
 		if r.Intn(2) == 0 {
 			L = n + r.Intn(12)
 		}
-		db := deBruijn(n)
+		db := deBruijn(w, n)
 		stride := L - (n - 1)
 		var bans []string
 		var filters []bcFilter
